@@ -327,6 +327,11 @@ def check_property(pid, tier, seed):
             continue
         seen_kf.add(kf["id"])
         lines.append(f"KNOWN-FINDING: property={pid} {kf['id']} {kf['what']}")
+    # findings that the checks carve out of their scope (recorded, not re-detected) are listed on every run
+    for kf in known_findings():
+        if kf.get("status", "open") == "open" and pid in kf.get("properties", [kf.get("property")]) and kf["id"] not in seen_kf:
+            seen_kf.add(kf["id"])
+            lines.insert(0, f"KNOWN-FINDING: property={pid} {kf['id']} {kf['what']}")
     if violations:
         exit_code = 1
         lines += violations[:12]
